@@ -34,7 +34,7 @@ PROBES = ['served_from_partial_cache', 'tensor_after_component',
           'uncached_after_cached', 'overlap_iteration_served',
           'level1_read', 'explicit_restart_read', 'all_vars_read',
           'cross_restart_read', 'grouped_layout', 'per_proc_layout',
-          'enum_permuted']
+          'enum_permuted', 'deep_level_hierarchy']
 COMPONENTS = {
     'aurel.reading.read_data/read_ET_data/read_aurel_data/save_data/'
     'read_ET_variables/join_chunks/iterations/get_content': 'real',
@@ -52,7 +52,8 @@ ASSUMPTIONS = [
 
 def generate(rng, tier):
     cfg = etsim.gen_config(rng, decomp_classes=('tensor', 'hier'), max_P=8,
-                           max_restarts=3, mixed_grouping_p=0.0, min_its=2)
+                           max_restarts=3, mixed_grouping_p=0.0, min_its=2,
+                           deep_levels_p=0.05)
     g = rng.child('ops')
     enum = {'mode': g.pick(['sorted', 'reverse', 'shuffle']),
             'seed': g.randrange(1 << 30)}
@@ -63,9 +64,15 @@ def generate(rng, tier):
             if all(c in avail for c in cs)]
     ops = []
     focus_rl = g.randrange(nlev) if g.chance(0.4) else 0
+    deep = nlev > 2
+    if deep:
+        focus_rl = g.pick([1, 10, nlev - 1])
     nops = g.randint(2, 8)
     for k in range(nops):
         rl = focus_rl if g.chance(0.75) else g.randrange(nlev)
+        if deep:
+            # the interesting pairs are rl = 1 / rl = 10.. (substring!)
+            rl = g.pick([1, 10, 10, 1, nlev - 1, 0])
         present = sorted({it for r in outs for it in outs[r].get(rl, [])})
         if not present:
             continue
@@ -132,6 +139,8 @@ def execute(run):
     if any(rs['grouped'] for rs in cfg['restarts']):
         probe('grouped_layout')
     overlap = any(len(v) > 1 for v in sim.truth.values())
+    if len(cfg['levels']) > 2:
+        probe('deep_level_hierarchy')
     cached = set()      # (restart, aurel comp, it, rl) written by split reads
     compared = audited = 0
     partial = False
